@@ -113,7 +113,9 @@ impl Tracked {
         }
     }
     fn write(&self, f: &mut fmt::Formatter<'_>, mode: u8) -> fmt::Result {
-        let text = tracked_lines(self.val, mode).join("\n");
+        // one payload in sixteen uses CRLF line ends (the '\r' belongs to the line before)
+        let sep = if (self.val >> 9) & 15 == 15 { "\r\n" } else { "\n" };
+        let text = tracked_lines(self.val, mode).join(sep);
         match frag() {
             1 => {
                 for piece in text.split_inclusive('\n') {
